@@ -55,7 +55,7 @@ var Atoms = []string{
 	"@:", "[:", "_:", "`|", "{:", "^:", "]|", "/_:/..", "/[:/..", "/@|/../", "/{:/..", "1:", "/1|/..",
 	// percent escapes
 	"%", "%4", "%41", "%00", "%zz", "%2", "%25", "%2541", "%g1", "%C3%A9", "%FF", "%E2%82", "%20", "%09", "%0A", "%7f", "%80",
-	"%5B", "%5D", "%3A", "%2F", "%40", "%23", "%3F", "%3a",
+	"%5B", "%5D", "%3A", "%2F", "%40", "%23", "%3F", "%3a", "%2580", "%25FF", "%25C3", "%25c3%25a9", "%252580",
 	// ... and the neighbours of the hex digits ('/' '0'..'9' ':', '@' 'A'..'F' 'G', '`' 'a'..'f' 'g')
 	"%G1", "%1G", "%1g", "%@1", "%1@", "%`a", "%a`", "%:0", "%0:", "%/0", "%0/",
 	// ports
